@@ -112,12 +112,18 @@ func (d *PathDecoder) decodeReferenceTargetsForBody(body hcl.Body, parentBlock *
 
 	for _, attr := range content.Attributes {
 		if bodySchema.Extensions != nil {
-			if bodySchema.Extensions.Count && attr.Name == "count" && content.RangePtr != nil {
-				refs = append(refs, countIndexReferenceTarget(attr, *content.RangePtr))
+			if bodySchema.Extensions.Count && attr.Name == "count" {
+				// body range is not available in JSON, where the local
+				// count.index target cannot be delimited
+				if content.RangePtr != nil {
+					refs = append(refs, countIndexReferenceTarget(attr, *content.RangePtr))
+				}
 				continue
 			}
-			if bodySchema.Extensions.ForEach && attr.Name == "for_each" && content.RangePtr != nil {
-				refs = append(refs, forEachReferenceTargets(attr, *content.RangePtr)...)
+			if bodySchema.Extensions.ForEach && attr.Name == "for_each" {
+				if content.RangePtr != nil {
+					refs = append(refs, forEachReferenceTargets(attr, *content.RangePtr)...)
+				}
 				continue
 			}
 		}
